@@ -39,7 +39,7 @@ func (d *decoder) Read(b []byte) (int, error) {
 	if d.err != nil {
 		return 0, d.err
 	}
-	if d.remain == 0 {
+	if d.remain <= 0 {
 		return 0, io.EOF
 	}
 	if len(b) > d.remain {
@@ -109,6 +109,10 @@ func (d *decoder) decodeCompactBytes(v value) {
 func (d *decoder) decodeArray(v value, elemType reflect.Type, decodeElem decodeFunc) {
 	if n := d.readInt32(); n < 0 {
 		v.setArray(array{})
+	} else if int(n) > d.remain {
+		// every element takes at least one byte
+		d.setError(io.ErrUnexpectedEOF)
+		v.setArray(array{})
 	} else {
 		a := makeArray(elemType, int(n))
 		for i := 0; i < int(n) && d.remain > 0; i++ {
@@ -120,6 +124,9 @@ func (d *decoder) decodeArray(v value, elemType reflect.Type, decodeElem decodeF
 
 func (d *decoder) decodeCompactArray(v value, elemType reflect.Type, decodeElem decodeFunc) {
 	if n := d.readUnsignedVarInt(); n < 1 {
+		v.setArray(array{})
+	} else if n-1 > uint64(d.remain) {
+		d.setError(io.ErrUnexpectedEOF)
 		v.setArray(array{})
 	} else {
 		a := makeArray(elemType, int(n-1))
@@ -149,11 +156,26 @@ func (d *decoder) discard(n int) {
 }
 
 func (d *decoder) read(n int) []byte {
+	if n < 0 || n > d.remain {
+		// The length prefix promises more bytes than the message holds:
+		// fail instead of allocating what the peer asked for.
+		d.setError(io.ErrUnexpectedEOF)
+		return nil
+	}
 	b := make([]byte, n)
 	n, err := io.ReadFull(d, b)
 	b = b[:n]
 	d.setError(err)
 	return b
+}
+
+// clampLength converts a length read from the wire to an int without
+// overflowing; anything beyond what an int32 can hold is rejected by read.
+func clampLength(n uint64) int {
+	if n > math.MaxInt32 {
+		return math.MaxInt32
+	}
+	return int(n)
 }
 
 func (d *decoder) writeTo(w io.Writer, n int) {
@@ -248,7 +270,7 @@ func (d *decoder) readCompactString() string {
 	if n := d.readUnsignedVarInt(); n < 1 {
 		return ""
 	} else {
-		return bytesToString(d.read(int(n - 1)))
+		return bytesToString(d.read(clampLength(n - 1)))
 	}
 }
 
@@ -272,7 +294,7 @@ func (d *decoder) readCompactBytes() []byte {
 	if n := d.readUnsignedVarInt(); n < 1 {
 		return nil
 	} else {
-		return d.read(int(n - 1))
+		return d.read(clampLength(n - 1))
 	}
 }
 
@@ -429,9 +451,9 @@ func structDecodeFuncOf(typ reflect.Type, version int16, flexible bool) decodeFu
 			// for details of tag buffers in "flexible" messages.
 			n := int(d.readUnsignedVarInt())
 
-			for i := 0; i < n; i++ {
+			for i := 0; i < n && d.err == nil; i++ {
 				tagID := int(d.readUnsignedVarInt())
-				size := int(d.readUnsignedVarInt())
+				size := clampLength(d.readUnsignedVarInt())
 
 				f, ok := taggedFields[tagID]
 				if ok {
